@@ -64,7 +64,9 @@ const SUFFIXES: &[&str] = &["", " \"q\\é", "#ünï/{x}", "\t'€😀", ":a,b|c"
 /// the text-validation vocabulary has fixed concrete names
 pub const TV_SET: &str = "https://w3id.org/stam/extensions/stam-textvalidation/";
 pub const TP_SET: &str = "https://w3id.org/stam/extensions/stam-transpose/";
-const RESERVED: &[&str] = &["checksum", "text", "delimiter", "Transposition", "Resegmentation", "1", "1.5", "-7", "yes"];
+/// the W3C Web Annotation vocabulary (data in this set with certain keys is exported outside the body)
+pub const WA_SET: &str = "http://www.w3.org/ns/anno/";
+const RESERVED: &[&str] = &["checksum", "text", "delimiter", "Transposition", "Resegmentation", "1", "1.5", "-7", "yes", "created", "creator", "motivation"];
 
 /// string values that look like IRIs (the Web Annotation export writes them as nodes) with characters that need escaping
 const IRI_TOKENS: &[(&str, &str)] = &[
@@ -88,6 +90,8 @@ impl IdStyle {
             TV_SET.to_string()
         } else if abs == "TP" {
             TP_SET.to_string()
+        } else if abs == "WA" {
+            WA_SET.to_string()
         } else if RESERVED.contains(&abs) {
             abs.to_string()
         } else if let Some((_, c)) = IRI_TOKENS.iter().find(|(a, _)| *a == abs) {
@@ -113,6 +117,8 @@ impl IdStyle {
             "TV".to_string()
         } else if conc == TP_SET {
             "TP".to_string()
+        } else if conc == WA_SET {
+            "WA".to_string()
         } else if RESERVED.contains(&conc) {
             conc.to_string()
         } else if let Some((a, _)) = IRI_TOKENS.iter().find(|(_, c)| *c == conc) {
